@@ -30,6 +30,12 @@ pub struct Op {
     /// while accepting the k-th write, the sink itself displays another value
     /// on the same thread (a sink that logs): (k, value, its specification)
     pub nested: Option<(usize, What, Spec)>,
+    /// where the caller displays: 0 = in the ordinary course of the thread; 1 = in a
+    /// `Drop` that runs while the thread unwinds from a (caught) panic of the caller;
+    /// 2 = in the destructor of a thread-local object at thread exit (last operation
+    /// of a thread only, otherwise like 0)
+    #[serde(default)]
+    pub mode: u8,
 }
 
 #[derive(Clone, Debug, PartialEq, Eq, Hash, Serialize, Deserialize)]
@@ -207,7 +213,14 @@ fn generate_full(seed: u64, lite: bool) -> Plan {
     // a random subset of the types per run
     let k = 1 + r.below(4);
     let types: Vec<usize> = (0..k).map(|_| r.below(TABLE.len())).collect();
-    let n_threads = if lite { 3 } else { 1 + r.below(4) };
+    // 1-4 caller threads, now and then a crowd of 5-8
+    let n_threads = if lite {
+        3
+    } else if r.chance(1, 25) {
+        5 + r.below(4)
+    } else {
+        1 + r.below(4)
+    };
     // now and then a long history on few threads: state that only goes wrong
     // after hundreds of displays on one thread needs it
     let long = !lite && r.chance(1, 250);
@@ -232,7 +245,14 @@ fn generate_full(seed: u64, lite: bool) -> Plan {
             } else {
                 None
             };
-            ops.push(Op { what, spec, fault, nested });
+            let mode = if r.chance(1, 40) { 1 } else { 0 };
+            ops.push(Op { what, spec, fault, nested, mode });
+        }
+        // now and then the thread's last display is made by a thread-local's destructor at thread exit
+        if !lite && r.chance(1, 12) {
+            if let Some(last) = ops.last_mut() {
+                last.mode = 2;
+            }
         }
         threads.push(ops);
     }
@@ -300,7 +320,7 @@ pub fn systematic(index: u64) -> Plan {
     let other = (ty + 1) % TABLE.len();
     let plain = Spec::default();
     let q = |ty, unit, milli| What::Qty { ty, unit, amount: amt::from_milli(milli) };
-    let op = |what, spec| Op { what, spec, fault: None, nested: None };
+    let op = |what, spec| Op { what, spec, fault: None, nested: None, mode: 0 };
     let probes = vec![
         op(q(ty, unit, 3250), plain),
         op(q(other, 0, -7500), Spec { prec: Some(1), ..plain }),
@@ -377,7 +397,7 @@ pub fn soak(index: u64, ops: u64) -> Plan {
             x if x % 8 == 6 => (What::Qty { ty, unit, amount }, Spec { align: 3, width: Some(8 + k % 24), ..d }),
             _ => (What::Qty { ty, unit, amount }, d),
         };
-        v.push(Op { what, spec, fault: None, nested: None });
+        v.push(Op { what, spec, fault: None, nested: None, mode: if k % 512 == 77 { 1 } else { 0 } });
     }
     let repeat = (ops + SOAK_CYCLE as u64 - 1) / SOAK_CYCLE as u64;
     Plan { seed: index, backend: amt::BACKEND.to_string(), threads: vec![v], sched: vec![0], alloc_seams: false, lean: true, repeat }
